@@ -111,6 +111,93 @@ family!(xfer_data, crate::version_8::CMD_XFER_DATA, 12, 16);
 family!(xfer_initiate, crate::version_8::CMD_XFER_INITIATE, 40, 44);
 family!(xfer_resume, crate::version_8::CMD_XFER_RESUME, 12, 16);
 
+// -------------------------------------------------------------------------------------------------------
+// Value-side contracts for CMD_AUTH_LOGON_CHALLENGE_Server (the family whose 120-150 byte encodings are beyond the
+// bytes-side route): the version-N value is built field by field with symbolic contents; vector *lengths* are
+// concrete (generator 1 byte, large_safe_prime 2 bytes) - reported as bounded.
+// -------------------------------------------------------------------------------------------------------
+pub mod logon_challenge_server_values {
+    use super::*;
+    type Main = crate::version_8::CMD_AUTH_LOGON_CHALLENGE_Server;
+
+    fn any_v5_flag() -> crate::version_5::CMD_AUTH_LOGON_CHALLENGE_Server_SecurityFlag {
+        use crate::version_5::*;
+        let mut f = CMD_AUTH_LOGON_CHALLENGE_Server_SecurityFlag::empty();
+        if kani::any() {
+            f = f.set_pin(CMD_AUTH_LOGON_CHALLENGE_Server_SecurityFlag_Pin { pin_grid_seed: kani::any(), pin_salt: kani::any() });
+        }
+        if kani::any() {
+            f = f.set_matrix_card(CMD_AUTH_LOGON_CHALLENGE_Server_SecurityFlag_MatrixCard {
+                challenge_count: kani::any(), digit_count: kani::any(), height: kani::any(), seed: kani::any(), width: kani::any(),
+            });
+        }
+        f
+    }
+    fn any_v3_flag() -> crate::version_3::CMD_AUTH_LOGON_CHALLENGE_Server_SecurityFlag {
+        use crate::version_3::*;
+        if kani::any() {
+            CMD_AUTH_LOGON_CHALLENGE_Server_SecurityFlag::Pin { pin_grid_seed: kani::any(), pin_salt: kani::any() }
+        } else {
+            CMD_AUTH_LOGON_CHALLENGE_Server_SecurityFlag::None
+        }
+    }
+
+    macro_rules! value_contract {
+        ($name:ident, $wname:ident, $vassoc:ident, $from:ident, $to:ident, $pv:expr, $x:expr) => {
+            #[kani::proof]
+            #[kani::unwind(40)]
+            fn $name() {
+                type V = <Main as CollectiveMessage>::$vassoc;
+                let x: V = $x;
+                let m = <Main as CollectiveMessage>::$from(x.clone());
+                let back = <Main as CollectiveMessage>::$to(&m);
+                kani::cover!(true, "C14:cover-value-built");
+                assert!(back == x, "C14:lift-then-lower-is-identity");
+                std::mem::forget(x);
+                std::mem::forget(m);
+                std::mem::forget(back);
+            }
+            #[kani::proof]
+            #[kani::unwind(40)]
+            fn $wname() {
+                type V = <Main as CollectiveMessage>::$vassoc;
+                let x: V = $x;
+                let m = <Main as CollectiveMessage>::$from(x.clone());
+                let mut o1: Out<200> = Out::new();
+                let mut o2: Out<200> = Out::new();
+                assert!(m.write_protocol(&mut o1, $pv).is_ok(), "C14:write_protocol-succeeds");
+                assert!(<V as Message>::write(&x, &mut o2).is_ok(), "C14:version-writer-succeeds");
+                assert!(o1.len == o2.len, "C14:write_protocol-emits-as-many-bytes-as-the-version-codec");
+                let k: usize = kani::any();
+                kani::assume(k < o1.len && k < 200);
+                assert!(o1.buf[k] == o2.buf[k], "C14:write_protocol-emits-the-bytes-of-the-version-codec");
+                std::mem::forget(x);
+                std::mem::forget(m);
+            }
+        };
+    }
+    value_contract!(v2, v2_write, Version2, from_version_2, to_version_2, ProtocolVersion::Two,
+        crate::version_2::CMD_AUTH_LOGON_CHALLENGE_Server::Success {
+            crc_salt: kani::any(), generator: vec![kani::any()], large_safe_prime: vec![kani::any(), kani::any()],
+            salt: kani::any(), server_public_key: kani::any() });
+    value_contract!(v3, v3_write, Version3, from_version_3, to_version_3, ProtocolVersion::Three,
+        crate::version_3::CMD_AUTH_LOGON_CHALLENGE_Server::Success {
+            crc_salt: kani::any(), generator: vec![kani::any()], large_safe_prime: vec![kani::any(), kani::any()],
+            salt: kani::any(), security_flag: any_v3_flag(), server_public_key: kani::any() });
+    value_contract!(v5, v5_write, Version5, from_version_5, to_version_5, ProtocolVersion::Five,
+        crate::version_5::CMD_AUTH_LOGON_CHALLENGE_Server::Success {
+            crc_salt: kani::any(), generator: vec![kani::any()], large_safe_prime: vec![kani::any(), kani::any()],
+            salt: kani::any(), security_flag: any_v5_flag(), server_public_key: kani::any() });
+    value_contract!(v6, v6_write, Version6, from_version_6, to_version_6, ProtocolVersion::Six,
+        crate::version_5::CMD_AUTH_LOGON_CHALLENGE_Server::Success {
+            crc_salt: kani::any(), generator: vec![kani::any()], large_safe_prime: vec![kani::any(), kani::any()],
+            salt: kani::any(), security_flag: any_v5_flag(), server_public_key: kani::any() });
+    value_contract!(v7, v7_write, Version7, from_version_7, to_version_7, ProtocolVersion::Seven,
+        crate::version_5::CMD_AUTH_LOGON_CHALLENGE_Server::Success {
+            crc_salt: kani::any(), generator: vec![kani::any()], large_safe_prime: vec![kani::any(), kani::any()],
+            salt: kani::any(), security_flag: any_v5_flag(), server_public_key: kani::any() });
+}
+
 #[kani::proof]
 #[kani::unwind(2)]
 fn c14_canary() {
